@@ -183,6 +183,10 @@ def run(chk, facts, info):
     chk.rule('C01-R5', 'every ASSUME destination, ON/OFF flag and CPU argument is re-initialised at pass start or by '
              'the SwitchTo_* that registers it', min_instances=40)
     reset.registered_reset(chk, facts, 'C01-R5')
+    chk.rule('C01-R6', 'state that damps size oscillation between passes (the address behind the last BSR, compared with '
+             'label values) is kept in one address space: logical (EProgCounter()) and physical (ProgCounter()) '
+             'addresses are never compared or subtracted across', min_instances=2)
+    logical_physical_rule(chk, P, 'C01-R6')
     chk.note('Decided: repass flag discipline, placeholder => repass, single writer of carried symbol values, per-pass '
              'reset completeness of core and registered target state. Not decided: termination of the pass loop and that '
              'encoded operands equal final symbol values.')
